@@ -222,3 +222,7 @@ pub mod prng {
         Some(out)
     }
 }
+
+/// Hook H4 lives in `crate::vdaf::prio2::verif` (the client/server modules are private to it).
+#[cfg(all(feature = "crypto-dependencies", feature = "experimental"))]
+pub use crate::vdaf::prio2::verif as prio2;
